@@ -126,9 +126,9 @@ type c10Pos struct {
 	// modelHealth: set only when the module's estimator failed (oracle-price model, see c10Snapshot)
 	modelHealth math.LegacyDec
 	modelLong   bool
-	stop    bool
-	tp      bool
-	desc    string
+	stop        bool
+	tp          bool
+	desc        string
 	// principal fields
 	a, b, c math.Int
 	paid    math.Int // perp: interest + funding already settled out of custody (paid − received)
